@@ -44,6 +44,69 @@ pub fn sample(id: u64) -> Property {
     }
 }
 
+/// a second valid sample with a DIFFERENT value (a rule that compares whole properties sees two different ones)
+pub fn sample2(id: u64) -> Property {
+    use mqtt::packet::*;
+    match id {
+        1 => PayloadFormatIndicator::new(PayloadFormat::Binary).unwrap().into(),
+        2 => MessageExpiryInterval::new(11).unwrap().into(),
+        3 => ContentType::new("cd").unwrap().into(),
+        8 => ResponseTopic::new("cd").unwrap().into(),
+        9 => CorrelationData::new(vec![3u8, 4]).unwrap().into(),
+        11 => SubscriptionIdentifier::new(200).unwrap().into(),
+        17 => SessionExpiryInterval::new(11).unwrap().into(),
+        18 => AssignedClientIdentifier::new("cd").unwrap().into(),
+        19 => ServerKeepAlive::new(11).unwrap().into(),
+        21 => AuthenticationMethod::new("cd").unwrap().into(),
+        22 => AuthenticationData::new(vec![3u8, 4]).unwrap().into(),
+        23 => RequestProblemInformation::new(0).unwrap().into(),
+        24 => WillDelayInterval::new(11).unwrap().into(),
+        25 => RequestResponseInformation::new(0).unwrap().into(),
+        26 => ResponseInformation::new("cd").unwrap().into(),
+        28 => ServerReference::new("cd").unwrap().into(),
+        31 => ReasonString::new("cd").unwrap().into(),
+        33 => ReceiveMaximum::new(11).unwrap().into(),
+        34 => TopicAliasMaximum::new(11).unwrap().into(),
+        35 => TopicAlias::new(11).unwrap().into(),
+        36 => MaximumQos::new(0).unwrap().into(),
+        37 => RetainAvailable::new(0).unwrap().into(),
+        38 => UserProperty::new("k2", "w").unwrap().into(),
+        39 => MaximumPacketSize::new(11).unwrap().into(),
+        40 => WildcardSubscriptionAvailable::new(0).unwrap().into(),
+        41 => SubscriptionIdentifierAvailable::new(0).unwrap().into(),
+        _ => SharedSubscriptionAvailable::new(0).unwrap().into(),
+    }
+}
+pub fn sample2_bytes(id: u64) -> Vec<u8> {
+    let mut v = vec![id as u8];
+    match id {
+        1 | 23 | 25 | 36 | 37 | 40 | 41 | 42 => v.push(0),
+        19 | 33 | 34 | 35 => v.extend_from_slice(&[0, 11]),
+        2 | 17 | 24 | 39 => v.extend_from_slice(&[0, 0, 0, 11]),
+        11 => v.extend_from_slice(&[0xC8, 0x01]),
+        3 | 8 | 18 | 21 | 26 | 28 | 31 => v.extend_from_slice(&[0, 2, b'c', b'd']),
+        9 | 22 => v.extend_from_slice(&[0, 2, 3, 4]),
+        _ => v.extend_from_slice(&[0, 2, b'k', b'2', 0, 1, b'w']),
+    }
+    v
+}
+/// the k-th occurrence of an identifier in a list: alternating samples
+pub fn sample_k(id: u64, k: usize, differ: bool) -> Property { if differ && k % 2 == 1 { sample2(id) } else { sample(id) } }
+pub fn sample_bytes_k(id: u64, k: usize, differ: bool) -> Vec<u8> { if differ && k % 2 == 1 { sample2_bytes(id) } else { sample_bytes(id) } }
+/// properties / hand-encoded bytes of an identifier list; `differ`: repeated identifiers carry different values
+pub fn list_props(ids: &[u64], differ: bool) -> (Vec<Property>, Vec<u8>) {
+    let mut seen: std::collections::HashMap<u64, usize> = std::collections::HashMap::new();
+    let mut ps = Vec::new();
+    let mut pb = Vec::new();
+    for i in ids {
+        let k = *seen.get(i).unwrap_or(&0);
+        seen.insert(*i, k + 1);
+        ps.push(sample_k(*i, k, differ));
+        pb.extend_from_slice(&sample_bytes_k(*i, k, differ));
+    }
+    (ps, pb)
+}
+
 /// the same sample encoded by hand (MQTT v5.0 2.2.2.2)
 pub fn sample_bytes(id: u64) -> Vec<u8> {
     let mut v = vec![id as u8];
@@ -308,14 +371,11 @@ pub fn write_props_v(path: &str) {
     let mut rows: Vec<String> = Vec::new();
     for &loc in &LOCS {
         for &id in &IDS {
-            for count in 1..=2u64 {
-                let ids = cell_ids(loc, id, count);
-                let props: Vec<Property> = ids.iter().map(|i| sample(*i)).collect();
+            // count 3 = twice, with two DIFFERENT values
+            for count in 1..=3u64 {
+                let ids = cell_ids(loc, id, count.min(2));
+                let (props, pb) = list_props(&ids, count == 3);
                 let b = std::panic::catch_unwind(|| build_with(loc, props)).unwrap_or(false);
-                let mut pb = Vec::new();
-                for i in &ids {
-                    pb.extend_from_slice(&sample_bytes(*i));
-                }
                 let p = parse_with(loc, &pb);
                 rows.push(format!("  ({}, {}, {}, {}, {})", loc, id, count, b, p));
             }
@@ -359,12 +419,10 @@ pub fn gen_lists(seed: u64, n: usize, out: &mut Vec<String>) -> (u64, u64) {
             let id = if !legal.is_empty() && rng.chance(5, 6) { *rng.pick(&legal) } else { *rng.pick(&IDS) };
             ids.push(id);
         }
-        let props: Vec<Property> = ids.iter().map(|i| sample(*i)).collect();
+        // repeated identifiers carry different values (the case seed decides; replay uses the same rule: list length parity)
+        let differ = ids.len() % 2 == 0;
+        let (props, pb) = list_props(&ids, differ);
         let b = std::panic::catch_unwind(|| build_with(loc, props)).unwrap_or(false);
-        let mut pb = Vec::new();
-        for i in &ids {
-            pb.extend_from_slice(&sample_bytes(*i));
-        }
         let p = parse_with(loc, &pb);
         if b { acc += 1 } else { rej += 1 }
         let mut s = format!("c18 {} {}", loc, ids.len());
@@ -382,12 +440,9 @@ pub fn replay_list(nums: &[u64]) -> String {
     let loc = nums[0];
     let n = nums[1] as usize;
     let ids: Vec<u64> = nums[2..2 + n].to_vec();
-    let props: Vec<Property> = ids.iter().map(|i| sample(*i)).collect();
+    let differ = ids.len() % 2 == 0;
+    let (props, pb) = list_props(&ids, differ);
     let b = std::panic::catch_unwind(|| build_with(loc, props)).unwrap_or(false);
-    let mut pb = Vec::new();
-    for i in &ids {
-        pb.extend_from_slice(&sample_bytes(*i));
-    }
     let p = parse_with(loc, &pb);
     let mut s = format!("c18 {} {}", loc, ids.len());
     for i in &ids {
